@@ -5,6 +5,7 @@ against the reference model after every step, and checks replica agreement.
 execute(script) is a pure function of the script and the code under test.
 """
 
+import os
 import traceback
 import warnings
 
@@ -497,6 +498,10 @@ class Session:
             with do_checkify():
                 err, out = checkify.checkify(fn)(key, *dyn)
             err.throw()
+            # checkify's interpreter hands back raw Python scalars for outputs that
+            # are literals of the jaxpr (a JAX artefact, not a GenJAX result):
+            # re-wrap numbers as arrays, as jit would return them
+            out = jtu.tree_map(lambda v: jnp.asarray(v) if isinstance(v, (int, float)) and not isinstance(v, bool) else v, out)
             return out, "checkify"
         return fn(key, *dyn), None
 
@@ -1157,6 +1162,8 @@ class Session:
         try:
             (rtr, w, rd, bwd2), staged = self.run_staged(rep, perts, lambda k, t, r, ad: r.edit(k, t, ad), st["key"], tr, bwd, argdiffs)
         except Exception as ex:
+            if os.environ.get("VERIF_TRACE"):
+                traceback.print_exc()
             self.viol("C06.undo-crash", {"C06"} | self.pp | ({"C23"} if perts else set()), i, rep, "applying the backward request (%s) of a %s raised %s: %s" % (type(bwd).__name__, e["op"], type(ex).__name__, str(ex)[:300]), "crash")
             return {"op": "undo", "outcome": "crash"}
         rec = self.check_trace(rtr, src.args, i, rep, "undo", enc, staged)
